@@ -139,6 +139,7 @@ type Runner struct {
 	finished  bool
 	nviol     atomic.Int64
 	knownSigs map[string]bool
+	onViol    func(sig, detail string)
 }
 
 // violationBudget: once this many violations were reported the generators stop
@@ -374,7 +375,21 @@ func (w *Worker) Violation(sig, detail string) {
 	w.R.addViolation(w.Monitor, sig, detail, raw)
 }
 
+// Probe returns a worker that is not attached to a run: violations go to onViol. Used by fuzz
+// targets, whose iterations execute in worker processes of the Go fuzzing engine.
+func Probe(onViol func(sig, detail string)) *Worker {
+	r := &Runner{Prop: "probe", onViol: onViol, viol: map[string]*ViolationRec{}, knownSigs: map[string]bool{}}
+	r.sum = Summary{Counters: map[string]int64{}}
+	w := &Worker{R: r, Monitor: "probe", distinct: map[uint64]struct{}{}, counters: map[string]int64{}}
+	w.samples = make([]any, 2) // WantSample() == false
+	return w
+}
+
 func (r *Runner) addViolation(monitor, sig, detail string, raw []byte) {
+	if r.onViol != nil {
+		r.onViol(sig, detail)
+		return
+	}
 	// signatures listed as known findings (handed down by the driver) do not use
 	// up the budget: exploration must go on past them.
 	if !r.knownSigs[sig] && r.nviol.Add(1) == violationBudget {
